@@ -353,9 +353,9 @@ func (w *speller) expr(n *N, ctxPrec int, right bool) {
 			w.sep0()
 		}
 		w.expr(n.A, p, false)
-		w.optspaceArith()
+		w.optspaceArith(true)
 		w.tok(n.S)
-		w.optspaceArith()
+		w.optspaceArith(false)
 		w.expr(n.B, p, true)
 		if parens {
 			w.sep0()
@@ -393,9 +393,25 @@ func (w *speller) expr(n *N, ctxPrec int, right bool) {
 	}
 }
 
-func (w *speller) optspaceArith() {
-	// "1 -1" and "1-1" are both fine; but keep at least nothing ambiguous:
-	// "a--b" is a - (-b): allowed. "/" followed by "*" would start a comment.
+func (w *speller) optspaceArith(before bool) {
+	// "1 -1" and "1-1" are both fine, "a--b" is a - (-b), and a comment may
+	// follow the operator directly ("4//* halves */2"). What has to stay apart
+	// is a wildcard and the operator after it: ".* *" is not ".**".
+	if w.st.lex() {
+		s := w.sb.String()
+		afterStar := before && len(s) > 0 && s[len(s)-1] == '*'
+		switch w.st.R.IntN(4) {
+		case 0:
+			if !afterStar {
+				return
+			}
+		case 1:
+			if !afterStar {
+				w.sb.WriteString(w.ws())
+				return
+			}
+		}
+	}
 	w.sb.WriteByte(' ')
 }
 
